@@ -218,11 +218,26 @@ class Server:
         # the client module copied the class object, not the URI: same object, attribute visible
         return self
 
-    async def stop(self):
-        if self.server is not None:
-            self.server.close()
-            await self.server.wait_closed()
-            self.server = None
+    async def stop(self, patience=12):
+        """stop serving; never raises and never blocks for long: connection handlers that do not finish (a broken tree may leave
+        one waiting for ever) are cancelled and their transports aborted -- teardown must not turn a verdict into a harness error"""
+        if self.server is None:
+            return
+        server, self.server = self.server, None
+        server.close()
+        try:
+            await asyncio.wait_for(server.wait_closed(), patience)
+            return
+        except (asyncio.TimeoutError, Exception):
+            pass
+        for ws in list(getattr(server, "websockets", []) or []):
+            with contextlib.suppress(Exception):
+                if getattr(ws, "handler_task", None) is not None:
+                    ws.handler_task.cancel()
+                if getattr(ws, "transport", None) is not None:
+                    ws.transport.abort()
+        with contextlib.suppress(BaseException):
+            await asyncio.wait_for(server.wait_closed(), 3)
 
     async def restart(self, hard=False):
         """stop listening, forget all in-memory state, listen again (new port); hard=True also resets every server module to its
